@@ -28,18 +28,19 @@ gin = ginenv.import_gin()
 ID = 'C20'
 LEVEL = 'exploration'
 ISOLATE = True
-BUDGET = {'quick': (16, 110), 'thorough': (16, 2000)}
+BUDGET = {'quick': (16, 80), 'thorough': (16, 2000)}
 RULE = ('Hypothesis op lists: history of 1-14 ops (parse_config of 1-4 generated statements '
         '[bindings with literal / @ref / @ref() / %macro-or-constant / @key/gin.singleton() values '
         'under scopes, macro definitions, stdlib imports in 6 forms, singleton constructors] with an '
         'optional injected failing statement and optional skip_unknown; bind_parameter str/tuple '
         'keys incl. unknown configurable/parameter; probe calls under scopes; finalize; '
-        'unlock_config+bind; gin.constant outside/inside interactive_mode() over names '
+        'unlock_config+bind; gin.constant outside/inside interactive_mode(), and blocks of 1-3 '
+        'definitions inside one interactive_mode(), over names '
         '{X,a.X,b.a.X,Y,a.Y,c.Y,K,REQUIRED,invalid}; singleton use through config and through '
         'singleton_value; queries; config-string reads), then clear_config(clear_constants in '
         '{False,True}), then a fixed full snapshot + 0-8 generated follow-up ops (same op '
         'language, outcomes recorded) + snapshot. Plus a bounded sweep of all sequences of <=2 '
-        '(quick) / <=3 (thorough) constant definitions after a fixed parse+call+finalize prefix. '
+        '(quick) / <=3 (thorough) constant definitions after a fixed parse(import, binding)+singleton-use+call+finalize prefix. '
         'Non-trivial = the history executed >=1 probe call, >=1 finalize or failed operation, and '
         '>=1 successful constant definition. Distinct = distinct case JSON.')
 ASSUMPTIONS = [
@@ -56,12 +57,14 @@ ASSUMPTIONS = [
     'reference cycles between bindings (f.p = @f()) are excluded by construction (references only '
     'point to probes later in a fixed order; macros hold literals only)',
 ]
-FLOORS = {'nontrivial': 0.15, 'pre:locked': 0.05, 'pre:singleton-cached': 0.05,
-          'pre:imports-recorded': 0.05, 'pre:operative-nonempty': 0.3,
-          'pre:parsed-bindings': 0.3, 'hist:const-suffix-coexist': 0.03,
-          'hist:const-interactive-ok': 0.05, 'hist:failed-op': 0.3,
-          'clear:constants-kept': 0.3, 'clear:constants-dropped': 0.3,
-          'survivors>=1': 0.15, 'obs:final-operative-readable': 0.6}
+_S = 'origin:search'
+FLOORS = {'nontrivial': (0.15, _S), 'pre:locked': (0.1, _S), 'pre:singleton-cached': (0.1, _S),
+          'pre:imports-recorded': (0.1, _S), 'pre:operative-nonempty': (0.4, _S),
+          'pre:parsed-bindings': (0.4, _S), 'hist:const-suffix-coexist': (0.03, _S),
+          'hist:const-suffix-defined-after-longer': (0.03, _S),
+          'hist:const-interactive-ok': (0.1, _S), 'hist:failed-op': (0.3, _S),
+          'clear:constants-kept': (0.3, _S), 'clear:constants-dropped': (0.3, _S),
+          'survivors-kept>=1': (0.1, _S), 'obs:final-operative-readable': (0.6, _S)}
 TECHNIQUE = ('model-free differential over generated operation histories: state after '
              'history+clear_config vs a fresh fork of the pristine process, compared through one '
              'shared observation script; bounded exhaustive sweep of short constant-definition '
@@ -133,6 +136,8 @@ SCOPES = ['', 's', 's/t', 'u']
 KEYS = ['k1', 'k2', 's']                         # singleton keys (= scope of the reference)
 CONSTS = ['X', 'a.X', 'b.a.X', 'Y', 'a.Y', 'c.Y', 'K', 'REQUIRED']
 BAD_CONSTS = ['1X', 'a..X']
+# operand -> name for definitions: the X family is over-represented so that suffix pairs meet
+CONST_PICK = CONSTS + ['X', 'a.X', 'b.a.X', 'a.X'] + BAD_CONSTS
 MACROS = ['M', 'N']
 LOOKUPS = CONSTS + ['gin.REQUIRED', 'c.X', 'b.X'] + MACROS
 IMPORTS = ['import math', 'import json as jj', 'from os import path', 'import os.path',
@@ -285,6 +290,22 @@ class Machine:
       return ['exc', exc_name(e)]
     return ['ok', self.desc.d(res) if self.desc is not None else None]
 
+  def note_const(self, name, vi, obj, succeeded, interactive):
+    if not succeeded:
+      self.labels.add('hist:const-rejected')
+      return
+    if name in self.defined:
+      self.labels.add('hist:const-redefined')
+    else:
+      self.order.append(name)
+    others = [n for n in self.defined if n != name]
+    if any(n.endswith('.' + name) for n in others + ['gin.REQUIRED']):
+      self.labels.add('hist:const-suffix-defined-after-longer')
+    if any(n.endswith('.' + name) or name.endswith('.' + n) for n in others):
+      self.labels.add('hist:const-suffix-coexist')
+    self.defined[name] = (vi % NVALS, obj)
+    self.labels.add('hist:const-interactive-ok' if interactive else 'hist:const-ok')
+
   def run(self, op):
     k = op[0]
     if k == 'parse':
@@ -344,8 +365,7 @@ class Machine:
       return out
     if k == 'const':
       _, ni, vi, interactive = op
-      names = CONSTS + BAD_CONSTS
-      name = names[ni % len(names)]
+      name = CONST_PICK[ni % len(CONST_PICK)]
       obj = mkval(vi)
 
       def define():
@@ -355,21 +375,26 @@ class Machine:
         else:
           gin.constant(name, obj)
       out = self.attempt(define)
-      if out[0] == 'ok':
-        if name in self.defined:
-          self.labels.add('hist:const-redefined')
-        else:
-          self.order.append(name)
-        others = [n for n in self.defined if n != name]
-        if any(n.endswith('.' + name) for n in others + ['gin.REQUIRED']):
-          self.labels.add('hist:const-suffix-defined-after-longer')
-        if any(n.endswith('.' + name) or name.endswith('.' + n) for n in others):
-          self.labels.add('hist:const-suffix-coexist')
-        self.defined[name] = (vi % NVALS, obj)
-        self.labels.add('hist:const-interactive-ok' if interactive else 'hist:const-ok')
-      else:
-        self.labels.add('hist:const-rejected')
+      self.note_const(name, vi, obj, out[0] == 'ok', interactive)
       return out
+    if k == 'const_block':
+      # several definitions inside ONE interactive_mode() block; a failing one ends the block
+      done = []
+
+      def block():
+        with gin.config.interactive_mode():
+          for ni, vi in op[1]:
+            name = CONST_PICK[ni % len(CONST_PICK)]
+            obj = mkval(vi)
+            try:
+              gin.constant(name, obj)
+            except Exception:
+              self.note_const(name, vi, obj, False, True)
+              raise
+            self.note_const(name, vi, obj, True, True)
+            done.append(name)
+        return done
+      return self.attempt(block)
     if k == 'use_singleton':
       # compound: constructor + a binding that references the singleton + the call that caches it
       _, ki, sc, fn, pa, csc = op
@@ -610,20 +635,23 @@ def check_case(case):
                     '(surviving constants expected: %s)' %
                     (n_diff, diff[0], what, json.dumps(diff[1])[:600], json.dumps(diff[2])[:600],
                      info['survivors'] if not case['clear_constants'] else 'none'))
-  labels = set(got['labels'])
-  labels.add('origin:sweep' if case.get('origin') == 'sweep' else 'origin:search')
-  labels.add('clear:constants-dropped' if case['clear_constants'] else 'clear:constants-kept')
+  sweep = case.get('origin') == 'sweep'
+  # Sweep cases share one fixed prefix; their labels are kept apart so that the generator-health
+  # floors measure the Hypothesis search only.
+  labels = {'origin:sweep'} if sweep else set(got['labels']) | {'origin:search'}
+  pre = 'sweep:' if sweep else ''
+  labels.add(pre + ('clear:constants-dropped' if case['clear_constants'] else 'clear:constants-kept'))
   if info['survivors']:
-    labels.add('survivors>=1')
+    labels.add(pre + 'survivors>=1')
     if not case['clear_constants']:
-      labels.add('survivors-kept>=1')
+      labels.add(pre + 'survivors-kept>=1')
   if got['nontrivial']:
-    labels.add('nontrivial')
+    labels.add(pre + 'nontrivial')
   return ok(labels, got['nontrivial'])
 
 
 # ----------------------------------------------------------------------------- generation
-_i = st.integers(0, 11)
+_i = st.integers(0, 13)
 _b = st.booleans()
 
 
@@ -666,6 +694,7 @@ def _op():
       st.tuples(st.just('finalize')),
       st.tuples(st.just('const'), _i, _i, _b),
       st.tuples(st.just('const'), _i, _i, _b),
+      st.tuples(st.just('const_block'), st.lists(st.tuples(_i, _i).map(list), min_size=1, max_size=3)),
       st.tuples(st.just('use_singleton'), _i, _i, _i, _i, _i),
       st.tuples(st.just('single_api'), _i, _b),
       st.tuples(st.just('query'), _i, _i, _i),
@@ -676,7 +705,7 @@ def _op():
 
 def strategy():
   return st.fixed_dictionaries({
-      'history': st.lists(_op(), min_size=1, max_size=14),
+      'history': st.lists(_op(), min_size=1, max_size=6) | st.lists(_op(), min_size=5, max_size=14),
       'clear_constants': _b,
       'follow': st.lists(_op(), min_size=0, max_size=8),
   })
@@ -687,12 +716,13 @@ def sweep_consts(tier):
   import itertools  # pylint: disable=g-import-not-at-top
   kmax = 3 if tier == 'thorough' else 2
   prefix = [['parse', [['import', 0], ['bind', 0, 0, 0, ['int', 1]]], None, False],
-            ['call', 0, 0], ['finalize']]
+            ['use_singleton', 1, 0, 1, 0, 0], ['call', 0, 0], ['finalize']]
   follow = [['const', 0, 1, False], ['use_singleton', 0, 0, 0, 0, 0]]
   alphabet = [(ni, inter) for ni in range(len(CONSTS)) for inter in (False, True)]
   cases = []
   for k in range(1, kmax + 1):
     for seq in itertools.product(alphabet, repeat=k):
+      # ni < len(CONSTS), so CONST_PICK[ni] == CONSTS[ni]; values are two distinct Tokens
       hist = prefix + [['const', ni, 7 + (j % 2), inter] for j, (ni, inter) in enumerate(seq)]
       for cc in (False, True):
         cases.append({'history': hist, 'clear_constants': cc, 'follow': follow, 'origin': 'sweep'})
@@ -700,3 +730,29 @@ def sweep_consts(tier):
 
 
 SWEEPS = {'constant-sequences': sweep_consts}
+
+
+# ----------------------------------------------------------------------------- known findings
+def _interactive_suffix_constant(case, verdict):
+  """DESIGN 6 row 14: clear_config raised because a constant defined in interactive mode is a
+  dotted suffix of an earlier one (or of gin.REQUIRED).  Only needed if the repair is not taken."""
+  if verdict.get('kind') != 'clear_config-raised' or case.get('clear_constants'):
+    return False
+  seen = ['gin.REQUIRED']
+  hit = False
+  for op in case['history']:
+    if op[0] == 'const':
+      defs, inter = [(op[1], op[2])], op[3]
+    elif op[0] == 'const_block':
+      defs, inter = [tuple(d) for d in op[1]], True
+    else:
+      continue
+    for ni, _ in defs:
+      name = CONST_PICK[ni % len(CONST_PICK)]
+      if inter and any(n.endswith('.' + name) for n in seen):
+        hit = True
+      seen.append(name)
+  return hit
+
+
+KNOWN = {'c20_interactive_suffix_constant': _interactive_suffix_constant}
